@@ -80,7 +80,8 @@ class GenCheck:
         out.problems = list(T.problems)
         out.ops = list(T.ops)
         # names
-        tree = ast.parse('(\n' + code.strip() + '\n)', mode='eval')
+        from .terms import parse_expr
+        tree = parse_expr(code)
         for n in ast.walk(tree):
             if isinstance(n, ast.Name) and n.id.startswith(self.name_prefix) and isinstance(n.ctx, ast.Load):
                 if n.id.startswith(self.pith_prefix) or n.id == self.random_var:
@@ -119,7 +120,9 @@ class GenCheck:
                 out.accept_ok, out.accept_detail = ok, detail
             else:
                 out.detect_ok, out.detect_detail = ok, detail
-        out.safety = safety_problems(out.term)
+        # a term that equals the reference structurally has the reference's guards; only a term
+        # accepted through the logical fallback needs its own guard analysis
+        out.safety = [] if (out.accept_ok and not out.accept_detail) else safety_problems(out.term)
         return out
 
 
@@ -131,6 +134,8 @@ def atoms_of(t, acc: list):
     elif isinstance(t, tuple) and t and t[0] == 'not':
         atoms_of(t[1], acc)
     elif isinstance(t, tuple) and t and t[0] == 'bind':
+        pass
+    elif isinstance(t, tuple) and t and t[0] == 'const':
         pass
     else:
         if t not in acc:
@@ -147,6 +152,8 @@ def truth(t, val: dict) -> bool:
             return not truth(t[1], val)
         if t[0] == 'bind':
             return True
+        if t[0] == 'const':
+            return bool(t[1])
     return val[t]
 
 
@@ -191,6 +198,15 @@ def safety_problems(term) -> list[str]:
     short-circuit order — otherwise a conforming empty container raises instead of being
     accepted."""
     problems: list[str] = []
+    tuple_paths = set()
+
+    def collect_tuple_tests(t):
+        if isinstance(t, tuple):
+            if t[:2] == ('call', 'isinstance') and len(t) == 4 and t[3] == ('name', 'tuple'):
+                tuple_paths.add(t[2])
+            for x in t[1:]:
+                collect_tuple_tests(x)
+    collect_tuple_tests(term)
 
     def subterms(t):
         if isinstance(t, tuple):
@@ -205,6 +221,10 @@ def safety_problems(term) -> list[str]:
                 continue
             p, need = ib
             if not derives_from_root(p) and p != ('root',):
+                continue
+            if need[0] == 'index' and p in tuple_paths:
+                # position of a fixed-length tuple: an object of another length does not conform,
+                # so an IndexError there is not a false alarm (detection is C02's business)
                 continue
             ok = False
             for f in facts:
